@@ -111,6 +111,13 @@ def variant(name, **kw):
     if name == "serial_asan":
         return Variant("serial_asan", "clang", ASAN_FLAGS, ["-fsanitize=address"],
                        conds=dict(HAVE_PTHREAD=False), **kw)
+    if name in ("envwrap", "envwrap_serial"):
+        wraps = ["read", "write", "pread", "pwrite", "open", "openat", "close", "dup", "lseek", "ftruncate", "fsync", "unlink",
+                 "malloc", "calloc", "realloc", "strdup", "strndup", "mmap", "readdir", "closedir"]
+        ld = ["-fsanitize=address"] + ["-Wl,--wrap=" + w for w in wraps]
+        conds = dict(HAVE_PTHREAD=False) if name == "envwrap_serial" else None
+        return Variant(name, "clang", ASAN_FLAGS, ld, conds=conds,
+                       extra_srcs=[os.path.join(VERIF, "engines", "env", "envwrap.c")], **kw)
     if name == "tsan":
         return Variant("tsan", "clang", ["-fsanitize=thread", "-O1", "-g"], ["-fsanitize=thread"], **kw)
     raise ValueError(name)
